@@ -65,8 +65,13 @@ func genCase(t *rapid.T) Case {
 		case k < 50:
 			op := FOp{K: "append", Start: rapid.SampledFrom([]uint64{1, 1, 3, 100}).Draw(t, "start")}
 			m := rapid.IntRange(1, 4).Draw(t, "n")
+			big := rapid.IntRange(0, 24).Draw(t, "bigBatch") == 0 // now and then a batch that overflows the 64 KiB commit buffer
 			for j := 0; j < m; j++ {
-				op.Entries = append(op.Entries, kit.EntrySpec{DataLen: rapid.SampledFrom([]int{0, 5, 30, 80, 200}).Draw(t, "dl"), Seed: uint8(rapid.IntRange(0, 255).Draw(t, "seed"))})
+				dl := rapid.SampledFrom([]int{0, 5, 30, 80, 200}).Draw(t, "dl")
+				if big {
+					dl = 30000 + dl
+				}
+				op.Entries = append(op.Entries, kit.EntrySpec{DataLen: dl, Seed: uint8(rapid.IntRange(0, 255).Draw(t, "seed"))})
 			}
 			c.Ops = append(c.Ops, op)
 		case k < 75:
@@ -714,6 +719,12 @@ func runCaseFor(c Case, prop string) (res common.Result) {
 		res.Fail = e.ledger
 	} else if prop == "C09" {
 		res.Fail = e.format
+	} else if prop == "C11" {
+		// only "a failed Open left the metadata store locked" belongs to this property
+		if f != nil && strings.Contains(f.Msg, "locked by an earlier instance") {
+			f.Sig = "failed-open-left-lock/" + f.Sig
+			res.Fail = f
+		}
 	} else if prop == "C08" {
 		// only the stable-store verdicts belong to this property
 		if f != nil && strings.HasPrefix(f.Sig, "stable-") {
@@ -772,4 +783,10 @@ func TestC08Faults(t *testing.T) {
 		}
 		return c
 	}, func(c Case) common.Result { return runCaseFor(c, "C08") })
+}
+
+// TestC11Faults: the fault histories judged for one thing only - an Open that fails (on an injected
+// error) leaves the metadata store unlocked, so that the next Open in the same process proceeds.
+func TestC11Faults(t *testing.T) {
+	common.Run(t, "C11", "C11Faults", genCase, func(c Case) common.Result { return runCaseFor(c, "C11") })
 }
